@@ -341,6 +341,13 @@ def constraints_bounded(spec, cfg, tier, seed):
             x = torch.stack([r.reshape(2, n // 2) if trial % 2 else r.reshape(2, 2, n // 4) for r in rows])
         else:
             x = torch.stack(rows)
+        if trial % 5 == 4 and x.dim() >= 3:
+            # the same numbers as a dense PERMUTED view (channels-last style): strides differ, values do not
+            perm = (0,) + tuple(range(2, x.dim())) + (1,)
+            inv = [0] * x.dim()
+            for i_, p_ in enumerate(perm):
+                inv[p_] = i_
+            x = x.permute(*perm).contiguous().permute(*inv)
         x0 = x.clone()
         f = _constraint(name)
         try:
@@ -350,6 +357,9 @@ def constraints_bounded(spec, cfg, tier, seed):
         evals += 1
         if not torch.equal(x, x0):
             fails["frame"] = fails["frame"] or {"kinds": kinds}
+        yc = _constraint(name)(x0.contiguous())
+        if yc.shape != y.shape or float((yc - y).abs().max()) > 1e-6 * max(1.0, float(yc.abs().max())):
+            fails["batch"] = fails["batch"] or {"kinds": kinds, "complex": cplx, "problem": f"result for a non-contiguous view (strides {tuple(x.stride())}) differs from the result for a contiguous copy of the same numbers: max |diff| {float((yc - y).abs().max()) if yc.shape == y.shape else 'shape'}"}
         singles = torch.stack([_constraint(name)(x0[i : i + 1])[0] for i in range(B)])
         tol = 1e-6 * max(1.0, float(singles.abs().max()))
         if y.shape != singles.shape or float((y - singles).abs().max()) > tol:
